@@ -492,7 +492,10 @@ def build_sampler(nautilus, cfg, tr, prob, filepath=None, resume=False):
         kw['periodic'] = np.array(cfg['periodic'])
     if cfg.get('pool_s'):
         kw['pool'] = (None, FakePool(cfg['pool_s'], cfg['seed'], pickle_func=True))
-    if cfg.get('pool_l') == 'executor':
+    if cfg.get('pool_l') == 'real':
+        # an integer: the sampler creates a real multiprocessing pool itself and caches the likelihood in the workers
+        kw['pool'] = (2, kw.get('pool', (None, None))[1])
+    elif cfg.get('pool_l') == 'executor':
         # a user-supplied concurrent.futures executor: results must come back in submission order whatever the run times
         from concurrent.futures import ThreadPoolExecutor
         kw['pool'] = (ThreadPoolExecutor(max_workers=3), kw.get('pool', (None, None))[1])
@@ -684,6 +687,11 @@ def run_traced(cfg, max_batches=400):
                 s2.discard_exploration = not v
                 if _stat_bytes(s2) != before:
                     tr.fail('C12', 'toggling discard_exploration there and back does not restore the statistics bit for bit', batch=k)
+        if cfg.get('pool_l') == 'real' and getattr(s, 'pool_l', None) is not None:
+            try:
+                s.pool_l.pool.terminate()
+            except Exception:     # noqa
+                pass
         tr.final = s
         tr.done = done
         tr.n_batches = k
